@@ -623,6 +623,11 @@ def run_case(p):
     return fails, counts, desc, sample
 
 
+def _worker_init():
+    # the parent's SIGTERM handler must not be inherited: Pool.terminate() relies on SIGTERM killing a worker outright
+    signal.signal(signal.SIGTERM, signal.SIG_DFL)
+
+
 def main():
     t0 = time.time()
     SCRATCH[0] = tempfile.mkdtemp(prefix='pytough-', dir='/var/tmp')
@@ -631,7 +636,7 @@ def main():
     cases = [gen_case(rnd, i) for i in range(NCASES)]
     nproc = min(16, os.cpu_count() or 1)
     failures, counts, distinct, samples = [], dict((c, 0) for c in CONTRACTS), set(), []
-    pool = mp.Pool(nproc)
+    pool = mp.Pool(nproc, initializer=_worker_init)
     try:
         for fails, cnt, desc, sample in pool.imap(run_case, cases, chunksize=1):
             failures.extend(fails)
